@@ -197,6 +197,22 @@ def reader_inputs(rng, n):
         out.append(("nestvec%d" % depth, "#(" * depth + ")" * depth))
         out.append(("quote%d" % depth, "'" * depth + "x"))
         out.append(("unclosed%d" % depth, "(" * depth))
+    # token-buffer boundaries: the reader collects strings, |symbols| and atoms in a buffer that starts at 128 bytes and
+    # doubles; put runs of multi-byte characters and of \x...; escapes (which expand to 2-4 bytes each) right at the limits
+    for base in (128, 256, 512, 1024):
+        for off in range(base - 9, base + 2):
+            for unit, uname in (("\\x3bb;", "esc2"), ("\\x20ac;", "esc3"), ("\\x1F600;", "esc4"), ("\u03bb", "raw2"), ("\U0001F600", "raw4"),
+                                ("\\n", "escn"), ("\\x41;", "esc1")):
+                for run in (2, 5, 60):
+                    if (off + run) % 3 and run == 5:
+                        continue                      # thin out: keep the grid small
+                    out.append(("strbuf-%s" % uname, "\"" + "a" * off + unit * run + "\""))
+                    if run == 2:
+                        out.append(("symbuf-%s" % uname, "|" + "b" * off + unit * run + "|"))
+            out.append(("atombuf", "c" * off))
+            out.append(("numbuf", "1" * off))
+            out.append(("numbuf-frac", "1." + "3" * off))
+            out.append(("charbuf", "#\\" + "x" * off))
     out.append(("longtoken", "a" * 100000))
     out.append(("longnum", "9" * 50000))
     out.append(("longstr", "\"" + "s" * 200000 + "\""))
@@ -447,7 +463,7 @@ def check(rep, tier, seed):
         files.append(("numeric", [imports, "(import (only (chibi) arithmetic-shift exact-rational?))"], items[i:i + 250], meta[i:i + 250]))
 
     # ---- (a) reader, (b) evaluator -----------------------------------------------------------------
-    nread, nform = (1500, 1200) if tier == "quick" else (120000, 60000)
+    nread, nform = (3200, 1200) if tier == "quick" else (120000, 60000)
     rin = reader_inputs(rng, nread)
     for i in range(0, len(rin), 1500):
         part = rin[i:i + 1500]
